@@ -76,6 +76,25 @@ func (a *Analysis) inlinableValue(fn *FuncInfo) bool {
 	return stmtCount(fn.Decl.Body) <= 80
 }
 
+// inlinableShared: a small private helper with two or three call sites (the tail of a handler extracted so that a second
+// caller can use it). A summary merges its exits by result, so for a helper without results it cannot say on which exits
+// the helper answered and on which it gave up; the exit-based rules walk it at each call site instead.
+func (a *Analysis) inlinableShared(fn *FuncInfo) bool {
+	a.computePurity()
+	if fn.Pkg.PkgPath != modPath || fn.Decl == nil || fn.Decl.Body == nil || ast.IsExported(fn.Decl.Name.Name) {
+		return false
+	}
+	if sig, ok := fn.Obj.Type().(*types.Signature); !ok || sig.Results().Len() != 0 {
+		return false
+	}
+	if a.ncalls[fn] < 2 || a.ncalls[fn] > 3 || a.escapes[fn] || a.pure[fn] {
+		return false
+	}
+	// (a cycle through it — the answer may end in a ChangeView, whose sender re-requests transactions — is cut by the
+	// walker's inlining depth, below which the summary is used)
+	return stmtCount(fn.Decl.Body) <= 25
+}
+
 func (a *Analysis) inlinable(fn *FuncInfo) bool {
 	a.computePurity()
 	if a.ncalls[fn] != 1 || ast.IsExported(fn.Decl.Name.Name) || a.escapes[fn] {
